@@ -524,6 +524,14 @@ func checkC06(in codecInput) []cfinding {
 		}
 	}
 	fs := wellFormed(in.Kind, first)
+	if !in.NF && len(fs) == 0 {
+		// any decoded value at all: what the emitted text is read back as is compared with the value that was encoded
+		if v2, err, pan := safeDecode(in.Kind, first); err == nil && pan == "" {
+			if d := heldDiff(reflect.ValueOf(lastDecoded), reflect.ValueOf(v2), ""); d != "" {
+				fs = append(fs, cfinding{shape: "held-value-differs:" + heldShape(d), what: "the text emitted for a decoded document is read back as a value that differs from the one encoded, at " + d, observed: clip(first)})
+			}
+		}
+	}
 	if in.NF {
 		// "it never emits text that parses to something other than what the model holds": for a normal-form document the text
 		// just emitted, decoded and encoded again, is the same text
@@ -943,4 +951,13 @@ func emptyish(v reflect.Value) bool {
 	default:
 		return v.IsZero()
 	}
+}
+
+// heldShape: the field a difference sits at, without the names and indices on the way
+func heldShape(d string) string {
+	i := strings.LastIndex(d, ".")
+	if i < 0 {
+		return d
+	}
+	return d[i+1:]
 }
